@@ -71,6 +71,10 @@ class Kron:
                 return self.kron(e, a, b)
             if f in ('np.array', 'np.asarray', 'np.copy') and e.args:
                 return self.ev(e.args[0], env)
+            if f in ('np.add', 'np.subtract', 'np.multiply') and len(e.args) == 2 and not e.keywords:
+                # the function form of the operator
+                op = {'np.add': ast.Add(), 'np.subtract': ast.Sub(), 'np.multiply': ast.Mult()}[f]
+                return self.ev(ast.copy_location(ast.BinOp(left=e.args[0], op=op, right=e.args[1]), e), env)
             return ('num',)
         if isinstance(e, ast.BinOp):
             a, b = self.ev(e.left, env), self.ev(e.right, env)
@@ -96,7 +100,7 @@ class Kron:
             if isinstance(t, bool):
                 return self.ev(e.body if t else e.orelse, env)
             a, b = self.ev(e.body, env), self.ev(e.orelse, env)
-            return a if a == b else ('unknown', norm(e))
+            return self.join(a, b)          # as for the two arms of an `if` statement
         return ('num',)
 
     def kron(self, e, a, b):
@@ -235,6 +239,26 @@ class ChainLoop(Kron):
     after the first iteration are generalised to seg(lo, k) and checked inductive"""
 
     def loop(self, s, env):
+        if norm(s.iter) in ('range(len(self.oids))', 'range(0, len(self.oids))') and isinstance(s.target, ast.Name):
+            # the index loop whose index is only used to pick `self.oids[k]`: the loop over the operator ids themselves
+            import copy
+            k_ = s.target.id
+            uses = [x for b_ in s.body for x in ast.walk(b_) if isinstance(x, ast.Name) and x.id == k_]
+            picks = [x for b_ in s.body for x in ast.walk(b_) if isinstance(x, ast.Subscript) and norm(x) == f'self.oids[{k_}]'
+                     and isinstance(x.ctx, ast.Load)]
+            if uses and len(uses) == len(picks):
+                class _Pick(ast.NodeTransformer):
+                    def visit_Subscript(self, node):
+                        if norm(node) == f'self.oids[{k_}]':
+                            return ast.copy_location(ast.Name(id=f'{k_}__oid', ctx=ast.Load()), node)
+                        self.generic_visit(node)
+                        return node
+                s2 = copy.deepcopy(s)
+                s2.body = [_Pick().visit(b_) for b_ in s2.body]
+                s2.target = ast.copy_location(ast.Name(id=f'{k_}__oid', ctx=ast.Store()), s.target)
+                s2.iter = ast.copy_location(ast.parse('self.oids', mode='eval').body, s.iter)
+                ast.fix_missing_locations(s2)
+                s = s2
         if norm(s.iter) != 'self.oids' or not isinstance(s.target, ast.Name):
             raise AnalysisError(f'{self.fi.qual}: loop `{norm(s.iter)}` is not the ascending loop over the operator ids')
         saved = self.loc_site
